@@ -104,7 +104,8 @@ namespace {
   {
     std::ostringstream pbuf;
 
-    if (xact.state() == item_t::UNCLEARED)
+    // the transaction's own mark covers the postings that share it
+    if (post->state() != xact.state())
       pbuf << (post->state() == item_t::CLEARED ? "* " :
               (post->state() == item_t::PENDING ? "! " : ""));
 
